@@ -337,7 +337,18 @@ POOL_VIEW = ['c::2_a', 'c::(-1)_a', 'c::2#a', 'c::(-2)#a', 'c::|a', 'c::a@[0 1]'
 POOL_AMEND = ['d::c:=9,0', 'c:=9,0', 'a::a:=7,1', 'd::m:-9,[0 1]', 'c:=8,[0 1]', 'd::a:=0,[0 2]', 'c::c:=5,1', 'd::s:=0cz,1', 'd::(*m):=8,0', 'c:-7,0', 'd::b:=6,0']
 POOL_FN = ['f::{1,x*y}', 'f(2;3)', 'f("ab";3)', 'f(a;b)', 'g::{x+a}', 'g(1)', 'g(a)', 'f::{x-y}', 'h::{[t];t::x;t*a}', 'h(2)']
 POOL_EXPR = ['1,a*b', '#a*b', 'a*b', 'a-b', '+/a', '{x*2}\'a', 'a*2', '(a*b)-2', '#(a*b)-a', 'c::a*b', 'a', '#a', '*a', 'a@0']
-POOLS = [POOL_DATA, POOL_VIEW, POOL_AMEND, POOL_FN, POOL_EXPR]
+# nested lists stored as object arrays, string / symbol amend values, index paths of depth 2 and 3,
+# literals inside function bodies and repeated literal texts
+POOL_OBJ = ['m::[["p" "q"] ["r" "s"]]', 'm::[[1 "x"] [2 "y"] [3 "w"]]', 'c::1_m', 'c::|m', 'c::*m', 'c::2#m',
+            'd::m:-"z",[0 1]', 'd::m:-:foo,[1 0]', 'm:-"z",[0 1]', 'd::c:-"z",[0 0]', 'd::c:-:foo,[0 1]', 'd::m:-7,[1 1]',
+            'lit::{[["a" "b"] ["c" "d"]]}', 'd::lit():-"z",[0 1]', 'lit()', 'd::[["a" "b"] ["c" "d"]]:-"z",[1 1]', '[["a" "b"] ["c" "d"]]',
+            'n::[[[1 "a"] [2 "b"]] [[3 "c"] [4 "d"]]]', 'd::n:-"z",[0 1 1]', 'd::n:-:k,[1 0 0]', 'c::n@0', 'd::c:-"y",[1 1]',
+            'm', 'n', 'c', 'g2::{x:-"q",[0 0]}', 'd::g2(m)', 'd::g2(c)']
+# reduces / scans nested inside function bodies, called with non-empty and with empty lists (argument and global)
+POOL_RED = ['avg::{(+/x)%#x}', 'avg([1 2 3])', 'avg([])', 'avg(a)', 'sm::{,+/a}', 'sm()', 'q::{1,*/x}', 'q([2 3])', 'q([])', 'q(a)',
+            'a::[]', 'a::[1 2 3]', 'a::[7 8]', 'a::2_a', 'w::{0+/x}', 'ff::{(w(x)),+/x}', 'ff([1 2])', 'ff([])', 'mx::{,|/x}', 'mx([3 1 2])',
+            'mx([])', 'sc::{#+\\x}', 'sc([1 2])', 'sc([])', 'mn::{1,&/a}', 'mn()']
+POOLS = [POOL_DATA, POOL_VIEW, POOL_AMEND, POOL_FN, POOL_EXPR, POOL_OBJ, POOL_RED]
 
 DIRECTED = [
     ['f::{1,x*y}', 'f(2;3)', 'f("ab";3)'],
@@ -352,6 +363,12 @@ DIRECTED = [
     ['a::[1 2 3]', '[1 2 3]', 'c::[1 2 3]', 'd::c:=9,0', '[1 2 3]', 'c::[1 2 3]', 'c'],
     ['f::{[1 2 3]}', 'c::f()', 'd::c:=9,0', 'f()'],
     ['a::[]', '+/a', 'a::[1 2]', '+/a', 'a::[]', '+/a'],
+    ['avg::{(+/x)%#x}', 'avg([1 2 3])', 'avg([])'],
+    ['sm::{,+/a}', 'a::[1 2 3]', 'sm()', 'a::[]', 'sm()', 'a::[7 8]', 'a::2_a', 'sm()'],
+    ['w::{0+/x}', 'ff::{(w(x)),+/x}', 'ff([1 2])', 'ff([])'],
+    ['m::[["p" "q"] ["r" "s"]]', 'd::m:-"z",[0 1]', 'm', 'c::1_m', 'd::c:-:foo,[0 0]', 'm', 'c'],
+    ['lit::{[["a" "b"] ["c" "d"]]}', 'd::lit():-"z",[0 1]', 'lit()', 'd::[["a" "b"] ["c" "d"]]:-"z",[1 1]', 'd::[["a" "b"] ["c" "d"]]:-"z",[1 1]'],
+    ['.module(:m1)', 't::0', 't::t+1', '.module(0)', 't::10', 't::t+1', 't'],
 ]
 
 
@@ -371,6 +388,28 @@ def gen_sequences(rng, tier):
                 st = rng.choice(seq)          # repeat an identical text
             seq.append(st)
         yield seq, "random"
+
+
+MOD_TEXTS = ['t::t+1', 't', 'u::t*2', 't::5', 't*2', 'w::{t+x}', 'w(1)', 'u', 't::t,1', '#t']
+
+
+def gen_module_sequences(rng, tier):
+    """byte-identical texts evaluated under different active modules with differing module / global bindings.
+    Every module switch gets its own spelling (trailing blanks), which keeps the sequences outside the known
+    finding C04-cached-module-switch."""
+    n = 120 if tier == "quick" else 1500
+    for _ in range(n):
+        sp = iter(range(1, 50))
+        texts = rng.sample(MOD_TEXTS, rng.randint(2, 4))
+        seq = []
+        if rng.random() < 0.4:
+            seq += ['t::%d' % rng.randint(20, 29)] + [rng.choice(texts)]
+        seq += ['.module(:m1)' + " " * next(sp), 't::0'] + [rng.choice(texts) for _ in range(rng.randint(1, 3))]
+        seq += ['.module(0)' + " " * next(sp), 't::10'] + [rng.choice(texts) for _ in range(rng.randint(1, 3))]
+        if rng.random() < 0.5:
+            seq += ['.module(:m2)' + " " * next(sp), 't::7'] + [rng.choice(texts) for _ in range(rng.randint(1, 2))]
+            seq += ['.module(0)' + " " * next(sp)] + [rng.choice(texts) for _ in range(rng.randint(1, 2))]
+        yield seq, "modules"
 
 
 def gen_cache_sequences(rng, tier):
@@ -430,6 +469,17 @@ def gen_view_sequences(rng, tier):
 
 
 # ---------------------------------------------------------------- checks
+def flat_vars(snap):
+    """{(frame index from the bottom, name): canonical value}"""
+    out = {}
+    fr = snap["frames"]
+    n = len(fr)
+    for i, f in enumerate(fr):
+        for name, val in f[1:]:
+            out[(n - 1 - i, name)] = val
+    return out
+
+
 def property_oracle(chk, seq, recs, kind, bad_props):
     """the property text on the implementation alone"""
     for i, r in enumerate(recs):
@@ -439,29 +489,52 @@ def property_oracle(chk, seq, recs, kind, bad_props):
             # the copy could not be loaded faithfully (not a verdict about the property)
             chk.count("skipped_unloadable_state")
             return
+        switch = r["text"].lstrip().startswith(".module")
         if r["rA"] != r["rB"]:
             what = "result depends on history: statement %d `%s` gives %s after the history and %s in a fresh interpreter with the same variables" % (
                 i, r["text"], r["rA"][:80], r["rB"][:80])
         elif r["postA"] != r["postB"]:
-            diff = {k: (r["postA"].get(k), r["postB"].get(k)) for k in set(r["postA"]) | set(r["postB"]) if r["postA"].get(k) != r["postB"].get(k)}
-            what = "variable state after statement %d `%s` depends on history: %s" % (i, r["text"], str(diff)[:200])
-        else:
-            changed = [k for k in set(r["pre"]) | set(r["postA"]) if r["pre"].get(k) != r["postA"].get(k) and k != r["target"]]
+            fa, fb = flat_vars(r["postA"]), flat_vars(r["postB"])
+            diff = {str(k): (fa.get(k), fb.get(k)) for k in set(fa) | set(fb) if fa.get(k) != fb.get(k)}
+            what = "variable state after statement %d `%s` depends on history: %s (active module %s / %s)" % (
+                i, r["text"], str(diff)[:300], r["postA"]["module"], r["postB"]["module"])
+        elif not switch:
+            pre, post = flat_vars(r["pre"]), flat_vars(r["postA"])
+            tgt = r["target"]
+            changed = [k for k in set(pre) | set(post) if pre.get(k) != post.get(k)
+                       and not (tgt is not None and (k[1] == tgt or k[1].startswith(tgt + "`")))]
             # an unbound symbol that evaluates to itself gets bound to itself: not a change of value
-            changed = [k for k in changed if not (k not in r["pre"] and r["postA"].get(k) == sx(["y"] + [ord(c) for c in k]))]
+            changed = [k for k in changed if not (k not in pre and post.get(k) == sx(["y"] + [ord(c) for c in k[1]]))]
             if changed:
-                what = "statement %d `%s` changed variables it does not assign: %s" % (i, r["text"], {k: (r["pre"].get(k), r["postA"].get(k)) for k in changed})
-        if r["depth"] != 3 and what is None:
-            what = "context depth is %d after statement %d" % (r["depth"], i)
+                what = "statement %d `%s` changed variables it does not assign: %s" % (
+                    i, r["text"], {str(k): (pre.get(k), post.get(k)) for k in changed})
+            elif len(r["pre"]["frames"]) != len(r["postA"]["frames"]):
+                what = "context depth changed from %d to %d by statement %d `%s`" % (len(r["pre"]["frames"]), len(r["postA"]["frames"]), i, r["text"])
         if what:
             bad_props.append({"kind": what, "family": kind, "statements": seq, "at": i,
                               "results_A": [x["rA"][:80] for x in recs], "results_B": [x["rB"][:80] for x in recs]})
             return
 
 
+KNOWN_SWITCH = 'C04-cached-module-switch'
+
+
+def replay_known(chk):
+    """known finding: a module-switching text served from the parse cache does not switch the parser's module.
+    Two histories that differ only in the spelling of the second `.module(:m1)` must end in the same state."""
+    h1 = ['.module(:m1)', 't::1', '.module(0)', 't::10', '.module(:m1)', 't::5', '.module(0) ', 't']
+    h2 = ['.module(:m1)', 't::1', '.module(0)', 't::10', '.module(:m1) ', 't::5', '.module(0) ', 't']
+    a, b = run_child([], final=[h1, h2])["final"]
+    chk.count("evaluations", len(h1) + len(h2))
+    if a != b:
+        chk.finding(KNOWN_SWITCH, "repeated `.module(:m1)` text: history dependence", {"history_1": h1, "history_2": h2, "end_1": a, "end_2": b})
+        return True
+    return False
+
+
 def check_all(chk, rng, tier):
     seqs = []
-    for g in (gen_sequences, gen_cache_sequences, gen_view_sequences):
+    for g in (gen_sequences, gen_cache_sequences, gen_view_sequences, gen_module_sequences):
         seqs.extend(g(rng, tier))
     out = run_child_sharded([s for s, _ in seqs])
     bad_props, bad_corrs = [], []
@@ -531,6 +604,7 @@ def run(tier, replay=None):
         proof["ok"] = False
         proof["error"] = "forbidden declarations: %r" % hits
         proof["broken"] = hits[0]
+    replay_known(chk)
     bad_props, bad_corrs = check_all(chk, rng, tier)
     if (bad_corrs or not proof["ok"]) and not bad_props and tier == "quick":
         bad_props, _ = check_all(chk, random.Random(chk.seed + 1), "thorough")
